@@ -459,7 +459,8 @@ pub fn c04(ctx: &mut Ctx) -> (u64, String) {
     ctx.assume("state identity = derived PartialEq over all fields (hook H3); the history tree needs no hook");
     let mut edges = 0;
     edges += run_evsys::<Keyboard<Echo, ScancodeSet2>>(ctx, "bfs:Keyboard<Echo,Set2> x R-MODS", true, false, false, HandleControl::MapLettersToUnicode);
-    edges += run_evsys::<EventDecoder<Echo>>(ctx, "bfs:EventDecoder<Echo> x R-MODS", true, false, false, HandleControl::Ignore);
+    edges += run_evsys::<EventDecoder<Echo>>(ctx, "bfs:EventDecoder<Echo> x R-MODS (with change_layout actions)", true, false, true, HandleControl::Ignore);
+    edges += pump_events(ctx, true, false);
     if ctx.thorough() {
         edges += run_evsys::<Keyboard<Echo, ScancodeSet1>>(ctx, "bfs:Keyboard<Echo,Set1> x R-MODS", true, false, false, HandleControl::Ignore);
     }
@@ -635,6 +636,215 @@ fn c14_wrap(ctx: &mut Ctx) {
     ctx.part("sweep:EventDecoder<Wrap(real layout)> vs direct call", json!({"layouts": 10, "modifier_states": 512, "modes": 2, "presses_checked": total}));
 }
 
+// ---- pumped event words and the two-press sweep ------------------------------------------------------
+
+/// every word of <= 2 key events (372 + 372^2 words) repeated 200 times on one Keyboard<Echo,Set2>, each step checked
+/// against R-MODS (getter / what the layout is shown) and/or the prescribed return value
+pub fn pump_events(ctx: &mut Ctx, check_mods: bool, check_ret: bool) -> u64 {
+    let mut evs: Vec<(KeyCode, KeyState)> = vec![];
+    for k in ALL_KEYS {
+        for s in KEY_STATES {
+            evs.push((k, s));
+        }
+    }
+    let n_ev = evs.len();
+    let reps = 200usize;
+    let results = par_chunks(n_ev, |first| {
+        let mut n = 0u64;
+        let mut bads: Vec<(Vec<(KeyCode, KeyState)>, usize, usize, String, String, &'static str)> = vec![];
+        // words: [first] and [first, second] for every second
+        for second in std::iter::once(None).chain((0..n_ev).map(Some)) {
+            let mut word = vec![evs[first]];
+            if let Some(s) = second {
+                word.push(evs[s]);
+            }
+            let mut kb = Keyboard::new(ScancodeSet2::new(), Echo(0), HandleControl::MapLettersToUnicode);
+            let mut m = M_INIT;
+            'w: for rep in 0..reps {
+                for (i, (k, st)) in word.iter().enumerate() {
+                    let r = guarded(|| kb.process_keyevent(KeyEvent::new(*k, *st)));
+                    n += 1;
+                    let after = rmods_step(m, *k, *st);
+                    let want_ret = expected_return(*k, *st, m, after, HandleControl::MapLettersToUnicode, 0);
+                    m = after;
+                    let mut fail: Option<(String, String, &'static str)> = None;
+                    match &r {
+                        Err(p) => fail = Some(("no panic".into(), p.clone(), "panic")),
+                        Ok(ret) => {
+                            if check_ret && *ret != want_ret {
+                                fail = Some((fmt_dk(&want_ret), fmt_dk(ret), "return"));
+                            } else if check_mods {
+                                let got = bits_from_mods(kb.get_modifiers());
+                                if got != after {
+                                    fail = Some((format!("mods={}", mods_text(after)), format!("mods={}", mods_text(got)), "getter"));
+                                } else if let Some(DecodedKey::Unicode(c)) = ret {
+                                    if (*c as u32) >= 0x10000 {
+                                        let seen = (((*c as u32) - 0x10000) >> 7) as u16 & 0x1FF;
+                                        if seen != after {
+                                            fail = Some((format!("layout shown [{}]", mods_text(after)), format!("layout shown [{}]", mods_text(seen)), "layout-sees"));
+                                        }
+                                    }
+                                }
+                            }
+                        }
+                    }
+                    if let Some((want, got, kind)) = fail {
+                        if bads.len() < 3 {
+                            bads.push((word.clone(), rep, i, want, got, kind));
+                        }
+                        break 'w;
+                    }
+                }
+            }
+        }
+        (n, bads)
+    });
+    let mut total = 0;
+    let mut nb = 0;
+    for (n, bads) in results {
+        total += n;
+        for (word, rep, i, want, got, kind) in bads {
+            nb += 1;
+            let mut ops: Vec<Op> = vec![];
+            for r in 0..=rep {
+                let upto = if r == rep { i + 1 } else { word.len() };
+                ops.extend(word[..upto].iter().map(|(k, s)| Op::Key(*k, *s)));
+            }
+            if kind == "getter" {
+                ops.push(Op::Mods);
+            }
+            let comp = "kb:echo-0:set2:Map";
+            let wt: Vec<String> = word.iter().map(|(k, s)| format!("{}:{}", key_name(*k), state_name(*s))).collect();
+            let obs = if kind == "getter" { crate::replay::run_part(comp, &ops).pop() } else { Some(got.clone()) };
+            ctx.violation(
+                &format!("ev/pumped-{}/{}", kind, wt.join(",")),
+                &format!("{}: the event word [{}] repeated: in repetition {} event {} must give {} but gives {}", comp, wt.join(", "), rep + 1, i + 1, want, got),
+                Replay::one(comp, ops, &want, obs),
+            );
+        }
+    }
+    ctx.evaluations += total;
+    ctx.traces_validated += total;
+    ctx.part("pump:event words w^k on Keyboard<Echo,Set2>", json!({"engine": "B pumped streams", "words": n_ev + n_ev * n_ev, "repetitions": reps, "events_checked": total, "violations_recorded": nb}));
+    total
+}
+
+/// C14's "all orderings of mode/layout changes between two presses": from every canonical decoder state, press an
+/// ordinary key, apply every sequence of <= 2 intermediate actions (modifier key events, mode switches, layout
+/// switches), press the same key again; the second press must return what the statement prescribes.
+fn c14_two_press(ctx: &mut Ctx, tags: u8) {
+    let paths = mods_paths();
+    let mut inter: Vec<EvAct> = vec![];
+    for k in ALL_KEYS {
+        if is_modifier_key(k) {
+            inter.push(EvAct::Key(k, KeyState::Down));
+            inter.push(EvAct::Key(k, KeyState::Up));
+        }
+    }
+    inter.push(EvAct::Ctrl(HandleControl::MapLettersToUnicode));
+    inter.push(EvAct::Ctrl(HandleControl::Ignore));
+    inter.push(EvAct::Layout(0));
+    inter.push(EvAct::Layout(1));
+    let plain: Vec<KeyCode> = ALL_KEYS.iter().copied().filter(|k| !is_modifier_key(*k)).collect();
+    let n_states = 512 * 2 * tags as usize;
+    let results = par_chunks(n_states, |si| {
+        let m0 = (si % 512) as u16;
+        let mode0 = MODES[(si / 512) % 2];
+        let tag0 = (si / 1024) as u8;
+        let mut n = 0u64;
+        let mut bads: Vec<(Vec<Op>, String, String, KeyCode)> = vec![];
+        let mut d0 = EventDecoder::new(Echo(0), mode0);
+        let built = guarded(|| {
+            for (k, s) in &paths[m0 as usize] {
+                let _ = d0.process_keyevent(KeyEvent::new(*k, *s));
+            }
+            d0.change_layout(Echo(tag0));
+        });
+        if built.is_err() {
+            return (0, bads);
+        }
+        // apply one action to (decoder, reference state)
+        let apply = |d: &mut EventDecoder<Echo>, r: &mut RState, a: &EvAct| -> bool {
+            guarded(|| match a {
+                EvAct::Key(k, s) => {
+                    let _ = d.process_keyevent(KeyEvent::new(*k, *s));
+                }
+                EvAct::Ctrl(m) => d.set_ctrl_handling(*m),
+                EvAct::Layout(t) => d.change_layout(Echo(*t)),
+            })
+            .map(|_| {
+                match a {
+                    EvAct::Key(k, s) => r.0 = rmods_step(r.0, *k, *s),
+                    EvAct::Ctrl(m) => r.1 = mode_bit(*m) as u8,
+                    EvAct::Layout(t) => r.2 = *t,
+                }
+                true
+            })
+            .unwrap_or(false)
+        };
+        for k in &plain {
+            let mut d1 = d0.clone();
+            let r1: RState = (m0, mode_bit(mode0) as u8, tag0);
+            if guarded(|| d1.process_keyevent(KeyEvent::new(*k, KeyState::Down))).is_err() {
+                continue;
+            }
+            // sequences of 0, 1, 2 intermediate actions
+            let mut check = |seq: &[&EvAct], n: &mut u64, bads: &mut Vec<(Vec<Op>, String, String, KeyCode)>| {
+                let mut d = d1.clone();
+                let mut r = r1;
+                for a in seq {
+                    if !apply(&mut d, &mut r, a) {
+                        return;
+                    }
+                }
+                let got = guarded(|| d.process_keyevent(KeyEvent::new(*k, KeyState::Down)));
+                *n += 1;
+                let want = expected_return(*k, KeyState::Down, r.0, r.0, MODES[r.1 as usize], r.2);
+                if got != Ok(want) && bads.len() < 4 {
+                    let mut ops: Vec<Op> = paths[m0 as usize].iter().map(|(k, s)| Op::Key(*k, *s)).collect();
+                    ops.push(Op::Layout(tag0));
+                    ops.push(Op::Key(*k, KeyState::Down));
+                    ops.extend(seq.iter().map(|a| a.op()));
+                    ops.push(Op::Key(*k, KeyState::Down));
+                    let gt = match &got {
+                        Ok(g) => fmt_dk(g),
+                        Err(p) => p.clone(),
+                    };
+                    bads.push((ops, fmt_dk(&want), gt, *k));
+                }
+            };
+            check(&[], &mut n, &mut bads);
+            for a in &inter {
+                check(&[a], &mut n, &mut bads);
+                for b in &inter {
+                    check(&[a, b], &mut n, &mut bads);
+                }
+            }
+        }
+        let bads = bads.into_iter().map(|(o, w, g, k)| (o, w, g, k, mode0)).collect::<Vec<_>>();
+        (n, bads.into_iter().map(|(o, w, g, k, _)| (o, w, g, k)).collect())
+    });
+    let mut total = 0;
+    let mut nb = 0;
+    for (si, (n, bads)) in results.into_iter().enumerate() {
+        total += n;
+        let mode0 = MODES[(si / 512) % 2];
+        for (ops, want, got, k) in bads {
+            nb += 1;
+            let comp = format!("ed:echo-0:{}", mode_name(mode0));
+            let mid: Vec<String> = ops.iter().rev().skip(1).take_while(|o| !matches!(o, Op::Key(kk, KeyState::Down) if *kk == k)).map(|o| o.text()).collect::<Vec<_>>().into_iter().rev().collect();
+            ctx.violation(
+                &format!("ev/two-press/{}/between:{}", key_name(k), if mid.is_empty() { "-".to_string() } else { mid.join(",") }),
+                &format!("{}: pressing {:?}, then [{}], then {:?} again (starting from modifiers [{}]): the second press must return {} but returns {}", comp, k, mid.join(", "), k, mods_text((si % 512) as u16), want, got),
+                Replay::one(&comp, ops, &want, Some(got)),
+            );
+        }
+    }
+    ctx.evaluations += total;
+    ctx.traces_validated += total;
+    ctx.part("sweep:two presses of one key with <=2 modifier/mode/layout actions between", json!({"engine": "B", "start_states": n_states, "keys": plain.len(), "intermediate_actions": inter.len(), "second_presses_checked": total, "violations_recorded": nb}));
+}
+
 pub fn c14(ctx: &mut Ctx) -> (u64, String) {
     ctx.trust("R-MODS step form (see C04) supplies the 'current modifier state' the layout must be consulted with");
     ctx.assume("state identity = derived PartialEq over all fields (hook H3)");
@@ -643,6 +853,8 @@ pub fn c14(ctx: &mut Ctx) -> (u64, String) {
     edges += run_evsys::<Keyboard<Echo, ScancodeSet2>>(ctx, "bfs:Keyboard<Echo,Set2>", false, true, false, HandleControl::Ignore);
     edges += run_evsys::<Keyboard<Echo, ScancodeSet1>>(ctx, "bfs:Keyboard<Echo,Set1>", false, true, false, HandleControl::MapLettersToUnicode);
     c14_anylayout(ctx, false);
+    c14_two_press(ctx, if ctx.thorough() { 2 } else { 1 });
+    edges += pump_events(ctx, false, true);
     if ctx.thorough() {
         c14_anylayout(ctx, true);
         c14_wrap(ctx);
